@@ -38,9 +38,10 @@ inline Res<NOUT> diff(F&& f, L x, L h, L fscale) {
     const L r1 = (4 * D[1][i] - D[0][i]) / 3, r2 = (4 * D[2][i] - D[1][i]) / 3;
     r.d[i] = (16 * r2 - r1) / 15;
     r.err[i] = std::fabs(r2 - r1) + floor_;
-    // a smooth function gives e2 ~ e1/4; accept up to 0.6 unless both are at the rounding floor
+    // a smooth function gives e2 ~ e1/4 (a kink inside the stencil gives 1/2: first order);
+    // accept up to 0.4 unless both are at the rounding floor
     if (!(std::isfinite((double)r.d[i]))) r.ok = false;
-    else if (e2 > 0.6L * e1 && e2 > 4 * floor_) r.ok = false;
+    else if (e2 > 0.4L * e1 && e2 > 4 * floor_) r.ok = false;
   }
   return r;
 }
